@@ -79,7 +79,8 @@ def check_panics(ctx, report, roots, rule, prop, skip_kinds=(), only_bodies=None
             site_id = "%s | %s | %s" % (body.qname, o.kind, " ".join(o.snippet.split()))
             aud = None
             for r in audited_rows:
-                if r[0] == site_id or (r[0].endswith("| *") and site_id.startswith(r[0][:-1])):
+                if r[0] == site_id or (r[0].endswith("| *") and site_id.startswith(r[0][:-1])) or \
+                        (r[0].startswith("* | ") and r[0].endswith(" | *") and r[0].split(" | ")[1] == o.kind):
                     aud = r       # `| *`: any spelling of the site in that function; the predicate decides
                     break
             if aud is not None:
